@@ -24,6 +24,13 @@ MCCases ==
              point |-> f[1], how |-> f[2], n |-> f[3], where |-> w] : w \in Wheres(k, f) } :
           k \in Kinds, a \in BOOLEAN, d \in BOOLEAN, l \in BOOLEAN, h \in BOOLEAN, f \in Fails }
 
+\* spec -> code export: one initial state per case, printed with the final state the
+\* design layer expects (Predict = the fold of the same Step functions the machine
+\* takes one at a time; INVARIANT FoldAgrees of the design config ties the two together)
+ExportInit == /\ case \in Cases /\ pc = 1 /\ st = S0
+              /\ PrintT(<<"C", case, Predict(case, DV)>>)
+ExportNext == FALSE /\ UNCHANGED vars
+
 \* negative controls only need the cases with every resource switched on
 MCCasesAllOn == {c \in MCCases : c.art /\ c.db /\ c.lock /\ c.hooks}
 =============================================================================
